@@ -639,6 +639,51 @@ theorem C15_file_pixels (file : List Nat) (fmt w h off : Nat) (data : List Nat)
     Bool.not_true, Bool.false_eq_true, pure, Except.pure]
   rw [(C15_frame_roundtrip fmt hi data hb).1]
 
+/-! ## Mipmap generation -/
+
+/-- **`compute_mipmaps` level `k` is the `k`-fold `scale_down` of level 0.** For a `2^a × 2^b`
+texture whose levels `0..k` have the constructor's sizes, level 0 holding `d0` and levels `1..k`
+cleared, the state of level `k` after `compute_mipmaps(filter)` is the size `VTF.read` computes for
+mipmap `k` (`C15_mips`) with data `iterScale filter … d0 k`. -/
+theorem C15_mip_generation (fr : List (Key × FrameM)) (filt f d a b : Nat) (d0 : List Nat)
+    (hf : filt ≤ 4) (k : Nat) (hk : k ≤ min a b)
+    (hl : ∀ m, m ≤ k → lookupFrame fr (f, d, m)
+        = some ⟨2 ^ a >>> m, 2 ^ b >>> m, if m = 0 then some d0 else none, none⟩) :
+    levelAfter fr filt f d k
+      = .ok ⟨2 ^ (a - k), 2 ^ (b - k), some (iterScale filt (2 ^ a) (2 ^ b) d0 k), none⟩ ∧
+    readerDims (2 ^ a) (2 ^ b) k = (2 ^ (a - k), 2 ^ (b - k)) := by
+  have h := levelAfter_generated fr filt f d a b d0 hf k hk hl
+  rw [shiftRight_two_pow _ _ (by omega), shiftRight_two_pow _ _ (by omega)] at h
+  refine ⟨h, ?_⟩
+  simp only [readerDims, shiftRight_two_pow _ _ (show k ≤ a by omega),
+    shiftRight_two_pow _ _ (show k ≤ b by omega)]
+  rw [Nat.max_eq_left (Nat.two_pow_pos _), Nat.max_eq_left (Nat.two_pow_pos _)]
+
+/-- … and with the default bilinear filter each generated level is the floor average of the 2×2
+blocks of the level below it (`C15_bilinear` applied to every step of `iterScale`). -/
+theorem C15_mip_generation_average (a b k : Nat) (hk : k + 1 ≤ min a b) (d0 : List Nat)
+    (x y ch : Nat) (hx : x < 2 ^ (a - (k + 1))) (hy : y < 2 ^ (b - (k + 1))) (hc : ch < 4) :
+    let prev := iterScale 4 (2 ^ a) (2 ^ b) d0 k
+    let S := fun (dx dy : Nat) => pxAt (2 ^ (a - k)) prev (2 * x + dx) (2 * y + dy) ch
+    pxAt (2 ^ (a - (k + 1))) (iterScale 4 (2 ^ a) (2 ^ b) d0 (k + 1)) x y ch
+      = (S 0 0 + S 1 0 + S 0 1 + S 1 1) / 4 := by
+  intro prev S
+  have ha : 2 ^ a >>> k = 2 * 2 ^ (a - (k + 1)) := by
+    rw [shiftRight_two_pow _ _ (by omega), show a - k = (a - (k + 1)) + 1 by omega, Nat.pow_succ]; ring
+  have hb : 2 ^ b >>> k = 2 * 2 ^ (b - (k + 1)) := by
+    rw [shiftRight_two_pow _ _ (by omega), show b - k = (b - (k + 1)) + 1 by omega, Nat.pow_succ]; ring
+  have B := C15_bilinear (2 ^ (a - (k + 1))) (2 ^ (b - (k + 1))) 2 2 (.inr rfl) (.inr rfl) prev x y ch hx hy hc
+  simp only [iterScale, shiftRight_two_pow _ _ (show k + 1 ≤ a by omega),
+    shiftRight_two_pow _ _ (show k + 1 ≤ b by omega), ha, hb]
+  cases hs : scaleDown 4 (2 * 2 ^ (a - (k + 1))) (2 * 2 ^ (b - (k + 1))) (2 ^ (a - (k + 1)))
+      (2 ^ (b - (k + 1))) prev with
+  | none => simp [hs] at B
+  | some out =>
+    simp only [hs, Option.map_some, Option.some.injEq, Prod.mk.injEq] at B
+    have e : 2 ^ (a - k) = 2 * 2 ^ (a - (k + 1)) := by
+      rw [show a - k = (a - (k + 1)) + 1 by omega, Nat.pow_succ]; ring
+    simp only [Option.getD_some, B.2, S, e, prev]
+
 /-! ## Non-vacuity: the hypotheses are satisfiable, and the laws visibly bite -/
 
 example : (⟨200, 100, 50, 129⟩ : Px).valid := by decide
